@@ -555,3 +555,28 @@ Definition w_hol : val :=
                   VL [VZ 5; VZ 1; VZ 70000]; VL [VZ 2; VZ 1; VZ 65536; VZ 0]]].
 Lemma hol_lemma : prop_C40 w_hol (run_C40 w_hol) = false /\ kf_C40 w_hol = 2.
 Proof. vm_compute. split; reflexivity. Qed.
+
+(* outbound: the only place response DATA leaves the scheduler is take_head; a DATA frame of m > 0 bytes is
+   released only if m fits the stream's send window, the session's send window and the 16384 frame limit,
+   and both windows are charged exactly m *)
+Lemma take_head_data_within_windows c id s n fin q :
+  find_s id (strs c) = Some s -> outq s = (0, n, fin) :: q -> 0 < n ->
+  exists m c', take_head c id = (c', f_data id m (fin && (m =? n)) :: (if fin && (m =? n) && (sstate s =? 1) then [f_rst id 5] else []))
+    /\ m <= n /\ m <= soflow s /\ m <= cflow c /\ m <= MAXFRAME /\ cflow c' = cflow c - m.
+Proof.
+  intros Hf Hq Hn. unfold take_head. rewrite Hf, Hq. cbn [Z.eqb negb].
+  set (allowed := zmin (zmin (soflow s) (cflow c)) MAXFRAME).
+  assert (Ha1 : allowed <= soflow s).
+  { unfold allowed. pose proof (zmin_le_l (zmin (soflow s) (cflow c)) MAXFRAME). pose proof (zmin_le_l (soflow s) (cflow c)). lia. }
+  assert (Ha2 : allowed <= cflow c).
+  { unfold allowed. pose proof (zmin_le_l (zmin (soflow s) (cflow c)) MAXFRAME). pose proof (zmin_le_r (soflow s) (cflow c)). lia. }
+  assert (Ha3 : allowed <= MAXFRAME) by (unfold allowed; apply zmin_le_r).
+  assert (E0 : (n =? 0) = false) by (apply Z.eqb_neq; lia). rewrite E0. cbn [orb].
+  destruct (n <=? allowed) eqn:E.
+  - apply Z.leb_le in E. exists n. destruct fin.
+    + eexists. rewrite Z.eqb_refl. cbn [andb]. split; [reflexivity|]. simpl. repeat split; lia.
+    + eexists. cbn [andb]. split; [reflexivity|]. simpl. repeat split; lia.
+  - apply Z.leb_gt in E. exists allowed. eexists.
+    assert (E1 : (allowed =? n) = false) by (apply Z.eqb_neq; lia). rewrite E1, andb_false_r. cbn [andb].
+    split; [reflexivity|]. simpl. repeat split; lia.
+Qed.
